@@ -27,11 +27,10 @@ CHECKS["C16"] = {
             "every start address and every character sequence, writes stay in [start,start+n), the contents are exactly the text "
             "and NUL if it fits, else the first n-4 characters + '...' + NUL (C16_buffer); validated byte-for-byte against the real "
             "debug functions for n in 0..80 and more, with canaries.  (a) the four debug functions run as participants of "
-            "deterministic-scheduler executions with a write monitor asserting that they change nothing but the queue spinlock bit.",
+            "deterministic-scheduler executions with a write monitor asserting that they change nothing but the queue spinlock bit.  Third session: part (a) is a theorem: debugger threads as participants of the mutex model (MuDbgModel, Properties_C16a: holders unchanged, exclusion, spinlock discipline, never blocks, MuProof3's hand-off invariant lifted -- no lost hand-off and a live spinlock owner with debuggers present; the F2 regression refuted as a theorem about the old code shape) and of the cv model (CvDbgModel, Properties_C16c), both replayed in lock-step with a debugger thread.",
     "design_ref": "DESIGN.md section 4, C16",
-    "note": "Trusted: Coq kernel, translator, the syntactic check that emit_c is the only store through the buffer pointer; part (a) "
-            "is exploration of sampled schedules plus the regenerated site inventory, not a theorem (listed under coverage.partial).",
-    "technique": "Coq proof over source-regenerated model (buffer) + differential execution + schedule exploration (transparency)",
+    "note": "cv half: no-lost-wake-up over the combined system not proved; condition-free mutex without cv traffic (coverage.partial).",
+    "technique": "Coq proofs over source-regenerated models (buffer; debugger participants of the mutex / cv models) + differential execution + lock-step trace inclusion + write-monitor exploration",
 }
 CHECKS["C01"] = {
     "text": "Machine-checked invariant (Coq) over MuModel, the step-per-atomic-site model of mu.c whose CAS values, guards, masks and "
@@ -39,10 +38,9 @@ CHECKS["C01"] = {
             "lock/rlock/trylock/rtrylock/unlock and any schedule, the lock field of the word equals the set of holders, hence at most "
             "one writer and never a writer with a reader (C01_word_agrees, C01_exclusion).  The control skeleton is replayed in "
             "lock-step against traces of the real mu.c (values read/written, queue contents) on every run; a shadow-occupancy oracle "
-            "runs over thousands of deterministic schedules.",
+            "runs over thousands of deterministic schedules.  Third session: the same invariant over MuXferModel (MuModel stepped unchanged + condition-variable waits on the mutex: the release inside nsync_cv_wait, wake_waiters site by site with the transfer to the mutex queue, re-acquisition as designated waker or afresh, timeouts): C01x_exclusion, C01x_reacquire_mode, C01x_reacquire_by_cas, replayed in lock-step against cv_mix; C01w_exclusion over MuWaitModel for nsync_mu_wait_with_deadline.",
     "design_ref": "DESIGN.md section 4, C01",
-    "note": "Trusted: Coq kernel, site/constant extractor, hand-written control skeleton (validated by sampled lock-step replay, not "
-            "proved), the vrt runtime's futex model. Wait re-acquisition paths: oracle only (see coverage.partial).",
+    "note": "Trusted: Coq kernel, site/constant extractor, hand-written control skeletons (validated by sampled lock-step replay and pinned to the code: sites, flow, function bodies), the vrt runtime's futex model. nsync_wait_n's re-acquisition and the mix of mu_wait.c and cv.c on one mutex: occupancy oracle (coverage.partial).",
     "technique": "Coq inductive invariant over source-regenerated transition system + lock-step trace inclusion",
 }
 CHECKS["C12"] = {
@@ -60,10 +58,10 @@ CHECKS["C15"] = {
     "text": "Theorems (Coq) over SemModel for EVERY normalized deadline, any 64-bit seconds incl. before the epoch: no ASSERT failure "
             "(C15_no_crash), an expired deadline yields the timeout result within 4 own steps (C15_expired_prompt), no early timeout "
             "(C15_no_early_timeout); tied to the code by lock-step replay incl. the timespec handed to FUTEX_WAIT.  The entry points above "
-            "the semaphore are run on the REAL library and kernel (C and C++ builds) over the boundary deadline set, one child process per case.",
+            "the semaphore are run on the REAL library and kernel (C and C++ builds) over the boundary deadline set, one child process per case.  Third session: sem_wait.c above the semaphore is modelled (SemWaitModel): any deadline value enables the time-out once reached, an expired deadline or note returns non-zero within a bounded number of own steps (C05sx_expired_prompt), no deadline and no note never times out (C15sw_no_deadline); the grid also passes never-notified cancel notes and takes nsync_wait_n's heap path.",
     "design_ref": "DESIGN.md section 4, C15",
-    "note": "Upper plumbing (cv/mu/note/counter/wait_n loops) decided by the real-library grid, not a theorem (coverage.partial).",
-    "technique": "Coq proof over semaphore model + lock-step tie + real-library boundary grid in child processes",
+    "note": "wait_n's short-circuit and the cv/mu/note/counter wait loops: real-library grid, not a theorem (coverage.partial).",
+    "technique": "Coq proof over semaphore and sem_wait models + lock-step ties + real-library boundary grid in child processes",
 }
 CHECKS["C03"] = {
     "text": "Theorems (Coq): (1) over MuModel instrumented with the operational release/acquire view semantics driven ONLY by the memory "
@@ -120,19 +118,19 @@ CHECKS["C13"] = {
     "text": "Theorems (Coq) over MuModel: after a release's last successful word CAS only waiter records are touched (C13_last_cas), "
             "uncontended releases end in that very step, and between an early release and that last CAS the mutex is pinned by a non-empty "
             "queue/wake list whose members are still inside nsync_mu_lock (C13_pinned), for any threads/programs/schedules.  The refcount "
-            "pattern and the waker-vs-wait_n half are run against an arena that unmaps freed blocks and a dead-stack-frame check.",
+            "pattern and the waker-vs-wait_n half are run against an arena that unmaps freed blocks and a dead-stack-frame check.  Third session: the reference-count theorem with an explicit free over MuRefModel (C13r_no_touch_after_free, C13r_tail_after_free, C13r_reader_variant; in-lock read-mode decrement refuted as a client error), and C13sw_no_dead_touch for cancellable waits' on-stack records (SemWaitModel).  The audit of C13r found F15 (stale MU_WAITING from cv.c's wake_waiters lets the pattern free the mutex under a thread still in nsync_mu_unlock_slow_): reproduced by the scripted scenario refcount_cv and repaired in /repo 0f631a1.",
     "design_ref": "DESIGN.md section 4, C13",
-    "note": "Refcount theorem with an explicit free and the waker half are oracle-decided (coverage.partial).",
-    "technique": "Coq invariants over source-regenerated transition system + arena/dead-stack oracles on schedules",
+    "note": "C13r is over the condition-free mutex without cv traffic; the pattern with cv waits / nsync_mu_wait on the same mutex is decided by the arena oracle (refcount_cv, refcount VRT_MUWAIT); waker half vs nsync_wait_n: oracle (coverage.partial).",
+    "technique": "Coq invariants over source-regenerated transition systems (mutex, refcount wrapper, sem_wait) + lock-step trace inclusion + arena/dead-stack oracles on schedules",
 }
 CHECKS["C14"] = {
     "text": "Theorems (Coq) over MuModel: while MU_LONG_WAIT is set no thread that has not slept in its current call can acquire (all fast "
             "paths, try-locks, lock_slow before the first sleep; any number of such threads), the LONG_WAIT_THRESHOLD-th fruitless wake-up "
             "makes the waiter set the bit in every enqueue CAS, it re-queues at the front, and once woken it ignores the barrier.  The bound "
-            "on the victim's sleeps is asserted under a scenario-directed adversarial scheduler and random schedules.",
+            "on the victim's sleeps is asserted under a scenario-directed adversarial scheduler and random schedules.  Third session: the property's second sentence over runs (Properties_C14c): MU_LONG_WAIT is set only by an escalated thread's enqueue CAS and cleared only by such a thread's acquisition (C14_long_wait_transition, C14_long_wait_owner); from the victim's enqueue to its acquisition no fresh thread acquires unless another long waiter acquired in between (C14_no_fresh_overtake, C14_single_victim).  A numeric bound for arbitrary schedules is refuted on the model and replayed on the real code (starve2): the overtakers there have themselves waited (outside the property's second sentence).",
     "design_ref": "DESIGN.md section 4, C14",
-    "note": "The numeric bound itself is not a theorem (coverage.partial).",
-    "technique": "Coq lemmas over source-regenerated expressions and model + adversarial-schedule oracle",
+    "note": "Bound LONG_WAIT_THRESHOLD + 4 for fresh-barger adversaries: starve oracle only (coverage.partial).",
+    "technique": "Coq invariants over source-regenerated transition system (history ghosts over runs) + lock-step trace inclusion + adversarial-schedule oracle",
 }
 CHECKS["C10"] = {
     "text": "Theorems (Coq) over CounterModel (one step per atomic site of counter.c incl. the one-object wait_n path, abstract counter_mu, "
@@ -179,9 +177,9 @@ CHECKS["C05"] = {
             "thread holds the mutex in the mode captured at entry, ETIMEDOUT only if the clock had reached the deadline at an earlier step "
             "of the call, ECANCELED only if the note is notified, mu_wait returns 0 exactly when the condition is true now (any threads / "
             "programs / schedules / clock / note behaviour).  Every wait return of the cv, mu_wait and cancellation scenarios is checked "
-            "against shadow lock mode, virtual clock and note state; waits nobody wakes must end by the note or the deadline.",
+            "against shadow lock mode, virtual clock and note state; waits nobody wakes must end by the note or the deadline.  Third session: nsync_sem_wait_with_cancel_ modelled step by step (SemWaitModel, lock-step against cancel_mix): results and reasons (C05sw_results, C05sw_reason_partial, C05sx_reason_strong), ECANCELED only for a note that was notified by a call or whose expiry was reached (C05sx_flag_sound, C05sx_cancel_sound; the seeded defect C15c as a model variant falsifies it), 'needs no further wake-up' as C05sx_expired_prompt(_composed) and C05sx_no_lost_cancel_strong.",
     "design_ref": "DESIGN.md section 4, C05",
-    "note": "'needs no further wake-up' is oracle-decided (coverage.partial).",
+    "note": "Fair-schedule termination is not a theorem; CvModel / MuWaitModel take sem_wait.c's result as a guarded choice (composition by contract, coverage.partial).",
     "technique": "Coq invariants over source-regenerated transition systems + lock-step trace inclusion + return-time oracles",
 }
 CHECKS["C04"] = {
@@ -194,7 +192,7 @@ CHECKS["C04"] = {
             "accounts for what it took (C04_wake_complete); a taken waiter always has a post available, pending or owed (C04_no_lost_wakeup), hence "
             "no quiescent world with a waiter asleep off the queue (C04_no_stuck); no step touches a nsync_wait_n record after its call returned, "
             "the waker's V included (C04_no_dead_record) -- any threads / programs / schedules / clock / note.  "
-            "Lock-step replay with queue snapshots; stuck detector + return-value oracles over cv scenarios.",
+            "Lock-step replay with queue snapshots; stuck detector + return-value oracles over cv scenarios.  Third session: the concrete counterpart of the abstract mutex, MuXferModel (Properties_C01x / C04x): a transferred waiter is on the mutex queue or a releaser's wake list with MU_WAITING set (C04x_transfer_sound, C04x_queue_sets_waiting); after the F15 repair wake_waiters leaves MU_WAITING set only over a non-empty queue.",
     "design_ref": "DESIGN.md section 4, C04",
     "note": "No lost wake-up and no-stuck are theorems relative to the abstract mutex owing no post (coverage.partial); abstract mutex inside CvModel.",
     "technique": "Coq invariants over source-regenerated transition system + lock-step trace inclusion + scenario oracles",
@@ -206,9 +204,9 @@ CHECKS["C08"] = {
             "notification changes only the note's subtree (C08_local); a notified note with no notification in progress has no children and "
             "no waiters left (C08_descendants_partial/_linked); nsync_note_expiry = min (own deadline, parent's notification time at creation) "
             "(C08_expiry).  Lock-step replay; per-note observation histories, tree state at every notify return and at quiescence, expiry "
-            "checked on the implementation.",
+            "checked on the implementation.  Third session: the creation-time-descendants clause is a theorem (C08_descendants_full_holds, Properties_C08b: invariant C08_creation_path_linked across adoptions + a well-founded climb along the current parent links).",
     "design_ref": "DESIGN.md section 4, C08",
-    "note": "C08_descendants_full (creation-time descendants) kept as a Definition; literal expiry reading refuted by design (coverage.partial).",
+    "note": "Literal expiry reading refuted by design; 'quiet' in C08_descendants_full is global (no notification or free in progress anywhere) -- the local form is in progress (coverage.partial).",
     "technique": "Coq invariants over source-regenerated transition system + lock-step trace inclusion + observation-history oracles",
 }
 CHECKS["C09"] = {
@@ -216,9 +214,9 @@ CHECKS["C09"] = {
             "per-step footprint compared against the implementation in the replay); free re-parents the children under the former parent or "
             "notifies them instead when that parent is notified (C09_adoption, C09_free_post); locks are taken in increasing note order, so "
             "no deadlock consists of lock acquisitions alone (C09_lock_order, C09_no_stuck_partial).  Arena that unmaps freed notes, stuck "
-            "detector, descendants check at quiescence over notify/free/create families incl. the F10/F11 shapes.",
+            "detector, descendants check at quiescence over notify/free/create families incl. the F10/F11 shapes.  Third session: 'no such call deadlocks' proved by a ranking argument over the condition waits (Properties_C09b, invariant InvS: disconnecting counts accounted to threads, children accounted during the child waits; strengthened form with a world-changing step in Properties_C09c when present).",
     "design_ref": "DESIGN.md section 4, C09",
-    "note": "Progress of the condition waits (C09_no_stuck_full) is decided by the stuck detector and model exploration, not a theorem (coverage.partial).",
+    "note": "The first formulation of C09_no_stuck_full was satisfiable by an idle thread (audit 3): the strengthened statement is C09_no_stuck_strong (coverage.partial).",
     "technique": "Coq inductive invariant (lock ownership, disconnecting counts, retired notes) + lock-step trace inclusion + arena / stuck oracles",
 }
 NOT_APPLICABLE = {}
